@@ -8,3 +8,4 @@ import CC.Thm.C03
 #print axioms CC.Thm.C03.final_else_as_modelled
 #print axioms CC.Thm.C03.machine_types_as_modelled
 #print axioms CC.Thm.C03.extraction_clean
+#print axioms CC.Thm.C03.cfg_atoms_as_modelled
